@@ -107,7 +107,7 @@ def in2_fresh_resources(ctx, rep):
     vals = {f: bp.operand_term(o, bb, si) for f, o in zip(stmt["rv"]["fields"], stmt["rv"]["ops"])}
     for f, w in want.items():
         v = vals.get(f, ("opaque", "?"))
-        rep.check(v[0] == "wrap" and v[1] == w, R, "own-lock:%s" % f, ctx.where(b, bb, si), "store.%s is a Mutex created for this store" % f, "store.%s := %s" % (f, term_str(v)))
+        rep.check(v[0] == "wrap" and v[1] in (w, "RwLock"), R, "own-lock:%s" % f, ctx.where(b, bb, si), "store.%s is a lock created for this store" % f, "store.%s := %s" % (f, term_str(v)))
     sv = vals.get(A.f_subscribers, ("opaque", "?"))
     rep.check(sv[0] == "wrap" and sv[1] == "Arc" and sv[2][0] == "wrap" and sv[2][1] == "Mutex" and sv[2][2][0] == "call" and sv[2][2][1][0] == b.path, R, "own-subscriber-list", ctx.where(b, bb, si), "subscriber list := Arc::new(Mutex::new(<fresh Vec>))", "subscriber list := %s" % term_str(sv))
     pv = vals.get(A.f_pool, ("opaque", "?"))
